@@ -236,7 +236,7 @@ fn part_random() -> HistPart<Mon, impl Fn(&Setup) -> Mon + Sync> {
     p.timers_weight = 45;
     p.n_addr = 4;
     let sp = SetupProfile::default();
-    HistPart { name: "random-histories", sp, p, cases_quick: 40_000, cases_thorough: 2_000_000, mk: |s: &Setup| Mon::new(s.codec) }
+    HistPart { name: "random-histories", sp, p, cases_quick: 120_000, cases_thorough: 2_000_000, mk: |s: &Setup| Mon::new(s.codec) }
 }
 
 // ---------------------------------------------------------------------------------------
